@@ -5,13 +5,14 @@ import (
 	"go/ast"
 	"go/constant"
 	"go/types"
+	"regexp"
 	"strings"
 )
 
 func init() {
 	register(&propDef{
 		id: "C08", level: "other", perCfg: false,
-		explain: "Only narrow necessary conditions of C08 are visible statically; they are decided on the generator's template by the lexical-context walk (E10) and AST rules. B1 tags carry the IDL names: every splice inside a struct tag is the raw TypeField.Name (not a derived form), between `json:\"` and the closing quote, and `,omitempty` is emitted exactly under `field.Type.Kind == TypeMaybe`. B2 every declaration whose value is (de)serialised is tagged: each `var in`/`var out` declaration and each `type X` declaration obtains its type from the type writer with the tagged flag true. B3 kind -> Go type table of the type writer: bool->bool, int->int64, float->float64, string/enum->string, object->json.RawMessage, array->[]T, map->map[string]T, optional->*T, alias->its name, struct->struct{...}, i.e. the varlink JSON mapping under encoding/json. B4 wire names are composed alike at all sibling sites: every method name inside a string literal is `<interface name>.<method name>` (arguments of Send, Upgrade, ReplyMethodNotImplemented) except the dispatcher's case label, which is the bare method name; every error name inside a string literal is `<interface name>.<error name>` (Error(), Dispatch_Error case, ReplyError). B5 dispatcher skeleton: every emitted `call.GetParameters(&in)` is followed in the same fragment by the error test replying InvalidParameter(\"parameters\"), the default arm replies MethodNotFound(methodname), the dummy implementations reply MethodNotImplemented, and the client stubs pass `flags` through to Send.",
+		explain: "Only narrow necessary conditions of C08 are visible statically; they are decided on the generator's template by the lexical-context walk (E10) and AST rules. B1 tags carry the IDL names: every splice inside a struct tag is the raw TypeField.Name (not a derived form), between `json:\"` and the closing quote, and `,omitempty` is emitted exactly under `field.Type.Kind == TypeMaybe`. B2 every declaration whose value is (de)serialised is tagged: each `var in`/`var out` declaration and each `type X` declaration obtains its type from the type writer with the tagged flag true. B3 kind -> Go type table of the type writer: bool->bool, int->int64, float->float64, string/enum->string, object->json.RawMessage, array->[]T, map->map[string]T, optional->*T, alias->its name, struct->struct{...}, i.e. the varlink JSON mapping under encoding/json. B4 wire names are composed alike at all sibling sites: every method name inside a string literal is `<interface name>.<method name>` (arguments of Send, Upgrade, ReplyMethodNotImplemented) except the dispatcher's case label, which is the bare method name; every error name inside a string literal is `<interface name>.<error name>` (Error(), Dispatch_Error case, ReplyError). B5 dispatcher skeleton: every emitted `call.GetParameters(&in)` is followed in the same fragment by the error test replying InvalidParameter(\"parameters\"), the default arm replies MethodNotFound(methodname), the dummy implementations reply MethodNotImplemented, and the client stubs pass `flags` through to Send. B6 the standard replies are emitted on the library's varlink.Call (the dispatcher's parameter or the explicit embedded member), never on the generated wrapper type whose Reply<Error> methods can shadow them. B7 the library primitives the stubs delegate flag handling to decode each reply into a fresh value and map continues exactly.",
 		notDec:  "Most of the property: which value reaches which parameter, decoding fidelity, the behaviour of the emitted stubs for all descriptions and values. They live in the emitted program; deciding them needs the generator's output for all descriptions (translation validation), which is a different technique.",
 		trusted: []string{"encoding/json maps Go types to JSON as documented (int64 <-> number, *T/omitempty <-> optional, map[string]T <-> object, RawMessage <-> any value)"},
 		run:     runC08,
@@ -303,8 +304,68 @@ func runC08(r *Run, p *Prog) {
 			return false
 		}
 		r.Ob("B5", root, "unknown methods are answered MethodNotFound(methodname)", w.funcs[root].Pos(), has("default:", "return call.ReplyMethodNotFound(ctx, methodname)"), "")
-		r.Ob("B5", root, "methods the implementation does not override answer MethodNotImplemented", w.funcs[root].Pos(), has("return c.ReplyMethodNotImplemented(ctx, \""), "")
+		r.Ob("B5", root, "methods the implementation does not override answer MethodNotImplemented", w.funcs[root].Pos(), has("ReplyMethodNotImplemented(ctx, \""), "")
 		r.Ob("B5", root, "the Send stub passes the caller's flags through", w.funcs[root].Pos(), has("c.Send(ctx, \"") && has("in, flags)") && has("nil, flags)"), "")
 		r.Ob("B5", root, "the dispatcher switches on the method name it is given", w.funcs[root].Pos(), has("switch methodname {"), "")
+	})
+	// ---- B6: the standard replies are invoked on the library's varlink.Call, never on the generated wrapper type (whose
+	// generated Reply<Error> methods shadow the library's when the description declares an error of that name)
+	r.Guard("B6", func() {
+		re := regexp.MustCompile(`([A-Za-z_][A-Za-z0-9_.]*)\.Reply(MethodNotFound|MethodNotImplemented|InvalidParameter|InterfaceNotFound)\(`)
+		sigOK, redefined := false, false
+		n := 0
+		for _, fr := range w.Frags {
+			if strings.Contains(fr.Text, "VarlinkDispatch(ctx context.Context, call varlink.Call, methodname string)") {
+				sigOK = true
+			}
+			for _, bad := range []string{"call :=", "call =", "var call "} {
+				if strings.Contains(fr.Text, bad) {
+					redefined = true
+				}
+			}
+			for _, m := range re.FindAllStringSubmatch(fr.Text, -1) {
+				n++
+				recv := m[1]
+				ok := strings.HasSuffix(recv, ".Call") || recv == "call"
+				r.Ob("B6", fr.Fn, fmt.Sprintf("emitted %s.Reply%s is invoked on the library's varlink.Call", recv, m[2]), fr.Pos, ok,
+					"the standard reply is invoked on `"+recv+"`, a value of the generated wrapper type: a description that declares `error "+m[2]+"` generates a method of the same name that shadows the library's, so the peer gets the interface's own error instead of org.varlink.service."+m[2])
+			}
+		}
+		r.Ob("B6", root, "`call` in the emitted dispatcher is its varlink.Call parameter", w.funcs[root].Pos(), sigOK && !redefined,
+			fmt.Sprintf("dispatcher signature declares `call varlink.Call`: %v; `call` redefined in the emitted code: %v", sigOK, redefined))
+		if n < 3 {
+			r.Ob("B6", root, "the template emits the three standard replies", w.funcs[root].Pos(), false, fmt.Sprintf("%d found", n))
+		}
+	})
+	// ---- B7: the library primitives the stubs delegate flag handling to (re-evaluated from C03/C11): a fresh reply value
+	// per receive and the continues mapping
+	r.Guard("B7", func() {
+		ro := DiscoverRoles(p)
+		T := ro.T
+		cm := buildClientModel(p, ro)
+		if cm.Decode == nil {
+			r.Unresolved("B7", "client receive function")
+			return
+		}
+		ok, why := freshTarget(p, *cm.Decode)
+		r.Ob("B7", shortName(cm.Recv), "receive decodes each reply into a fresh zero value (flags of an earlier reply cannot survive)", cm.Decode.Call.Pos(), ok, why)
+		st := derefStruct(cm.Decode.Target.Type())
+		_, cf := structFieldByJSON(st, "continues")
+		fc := flagConsts(p)
+		if cf != nil {
+			mT := strip(T.T(cm.Decode.Target)) + "." + cf.Name()
+			for _, rv := range returnedValues(cm.Recv, 1) {
+				if T.T(rv.Val) != "nil" {
+					continue
+				}
+				fs := T.FactsAt(rv.Ret.Block())
+				isT, isF := hasFact(fs, "EQ", mT, "const:true"), hasFact(fs, "EQ", mT, "const:false")
+				want := "const:0"
+				if isT {
+					want = fmt.Sprintf("const:%d", fc["Continues"])
+				}
+				r.Ob("B7", shortName(cm.Recv), "receive reports Continues exactly when the frame says so", rv.Ret.Pos(), (isT || isF) && strip(T.T(rv.Ret.Results[0])) == want, "")
+			}
+		}
 	})
 }
